@@ -134,6 +134,18 @@ def bodyOf (f : Nat) : Prog := (fns[f]?.map (·.body)).getD (.act (.unknown 0))
 theorem readers_single_section : ∀ f ∈ readerApi, acqBound anyAcq fns fuel (bodyOf f) = some 1 := by
   decide
 
+/-- the single-record update API: each call decides (duplicate? present?) and acts on what it found -/
+def recordWriterApi : List Nat :=
+  [f_pfx_table_add, f_pfx_table_remove, f_spki_table_add_entry, f_spki_table_remove_entry]
+
+/-- a single-record update takes a lock at most once: its test (is the record there?) and its effect lie in ONE
+    critical section, so no other writer can change the table between the two.  This is what makes the sequential
+    set semantics of add / remove (C02, C10) and the exactness of the callback log (C09) carry over to several
+    writer threads (one per cache); a call that looks under one lock acquisition and updates under another
+    passes `api_wellLocked` (every access is guarded) and still loses updates or reports a change twice. -/
+theorem record_writers_single_section : ∀ f ∈ recordWriterApi, acqBound anyAcq fns fuel (bodyOf f) = some 1 := by
+  decide
+
 /-- a reader call never takes a write lock (hence never writes, by `api_wellLocked`) -/
 theorem readers_never_write : ∀ f ∈ readerApi, acqBound anyW fns fuel (bodyOf f) = some 0 := by
   decide
